@@ -3,7 +3,7 @@ import os, re
 from . import core, oracle
 
 PID = "C20"
-GENS = ["FlagTables", "GoFlags"]
+GENS = ["FlagTables", "GoFlags", "Steps"]
 MODULES = ["GV.Props.C20"]
 OWN = ["literals", "tiny", "debug", "debugdir", "seed"]
 NOT_FORWARDED = {"a", "n", "x", "v", "trimpath", "toolexec", "buildvcs", "json"}
@@ -113,6 +113,50 @@ def make_predicate():
     return predicate
 
 
+def rejection_probe(chk, tier):
+    """the real binary on command lines with one of garble's own flags somewhere after the command: each must fail at once
+    with the 'must precede command' error (the loop of toolexecCmd is not callable on its own, so it is run for real)"""
+    import subprocess, tempfile, shutil, random
+    garble, err = core.build_garble()
+    if garble is None:
+        return
+    rnd = random.Random(chk.seed * 71 + 9)
+    scratch = tempfile.mkdtemp(prefix="gv-c20-", dir="/var/tmp")
+    st = chk.cov["streams"].setdefault("e2e:rejection-probe", {"command_lines": 0, "rejected_at_once": 0})
+    try:
+        os.makedirs(os.path.join(scratch, "m", "emptymod"))
+        open(os.path.join(scratch, "m", "go.mod"), "w").write("module gv.test/rej\n\ngo 1.26\n")
+        open(os.path.join(scratch, "m", "main.go"), "w").write("package main\n\nfunc main() {}\n")
+        open(os.path.join(scratch, "m", "main_test.go"), "w").write("package main\n\nimport (\n\t\"flag\"\n\t\"testing\"\n)\n\nvar seed = flag.String(\"seed\", \"\", \"\")\n\nfunc TestX(t *testing.T) { t.Log(*seed) }\n")
+        env = dict(core.env(), GOMODCACHE=os.path.join(scratch, "m", "emptymod"), GOCACHE="/var/tmp/gv-cache/gocache", GARBLE_CACHE="/var/tmp/gv-cache/garblecache", HOME=scratch)
+        own = ["-literals", "--tiny", "-debug", "-debugdir=" + os.path.join(scratch, "dd"), "-seed=AAAAAAAAAAA", "--seed=AAAAAAAAAAA", "-tiny=true"]
+        ctx = {"build": [[], ["-v"], ["--v"], ["-race"], ["--race"], ["-tags=x"], ["-tags", "x"], ["-o", "out.bin"], ["-trimpath", "--work"], ["-ldflags=-s -w"]],
+               "test": [[], ["-short"], ["--short"], ["-v", "--short"], ["-run", "TestX"], ["-run=TestX", "--failfast"], ["--count", "1"], ["-json"], ["--cover"]]}
+        lines = []
+        for cmd, cs in ctx.items():
+            for c in cs:
+                for g in (own if tier == "thorough" else rnd.sample(own, 3)):
+                    lines.append([cmd] + c + [g] + (["."] if rnd.random() < 0.7 else []))
+                    if cmd == "test":
+                        lines.append([cmd, "."] + c + [g])           # flags after the package list (go test)
+        for argv in lines:
+            st["command_lines"] += 1
+            chk.count_cases(["reject|" + " ".join(argv)])
+            try:
+                r = subprocess.run([garble] + argv, cwd=os.path.join(scratch, "m"), env=env, capture_output=True, text=True, timeout=240)
+                out, rc = r.stderr, r.returncode
+            except subprocess.TimeoutExpired:
+                out, rc = "(still running after 240 s: not rejected)", None
+            if rc == 1 and "garble flags must precede command" in out:
+                st["rejected_at_once"] += 1
+            else:
+                chk.violation("garble's own flag placed after the command is not rejected: garble %s (exit %s: %s)" % (" ".join(argv), rc, out[-200:].replace("\n", " ")),
+                              {"kind": "argv", "argv": argv, "exit": rc, "stderr": out[-600:]}, True, key="own-flag-not-rejected")
+                break
+    finally:
+        shutil.rmtree(scratch, ignore_errors=True)
+
+
 def main(tier, replay=None):
     chk = core.Check(PID, tier)
     core.build_tools()
@@ -124,6 +168,7 @@ def main(tier, replay=None):
     n = 20000 if tier == "quick" else 600000
     oracle.oracle_property(chk, [("c20", chk.seed, n)], predicate, [("c20", chk.seed + 7919 * k, 200000) for k in range(1, 4)],
                            explain="ops: split/filter/reject/fval/fvals/fset/splitfiles/trimpath <hex tokens>, rxgarble <tok>; answers are `n tok…` lists")
+    rejection_probe(chk, tier)
     chk.cov["rule"] = "random argument vectors over documented go flags (bool/value, 1 and 2 dashes, =value and separate value), garble's own flags, unknown flags and values that look like flags/paths; case = op line"
     chk.assumptions += ["go's flag grammar is the Go flag package's parseOne (read from go1.26.2 source), modelled as goSplit", "`--` and a bare `-` in flag position are outside the property's vectors",
                         "the end-to-end argv of the nested go command is covered by theorem nested_preserves_user_args over the model of toolexecCmd, not executed"]
